@@ -154,7 +154,10 @@ def tlc(spec, cfg, workdir, workers=None, timeout=600, env=None, simulate=None, 
     os.makedirs(workdir, exist_ok=True)
     u = uniq()
     meta = os.path.join(workdir, "meta_" + u)
-    jopts = ["-XX:+UseParallelGC", "-Xmx" + heap, "-Xss16m"]
+    # (java.io.tmpdir: TLC and SANY leave tlc-*/SANY* directories behind; keep them in the build directory, not /tmp)
+    jtmp = os.path.join(workdir, "jtmp")
+    os.makedirs(jtmp, exist_ok=True)
+    jopts = ["-XX:+UseParallelGC", "-Xmx" + heap, "-Xss16m", "-Djava.io.tmpdir=" + jtmp]
     if dfs_queue:
         jopts.append("-Dtlc2.tool.queue.IStateQueue=StateDeque")
     cmd = ["java"] + jopts + ["-cp", TLA_JAR, "tlc2.TLC", "-metadir", meta, "-config", cfg,
